@@ -87,7 +87,8 @@ def shrink_ops(result, drv, run_cases):
     budget = 200
     while i >= 0 and budget > 0:
         budget -= 1
-        if ops[i][0] == 'bytes':
+        if ops[i][0] in ('bytes', 'lost', 'nested') or (ops[i][0] == 'whendisc' and any(o[0] == 'nested' and o[1] == ops[i][1] for o in ops)):
+            # nested calls stand where their notification happens: they and what causes them stay
             i -= 1
             continue
         cand_ops = ops[:i] + ops[i + 1:]
